@@ -25,7 +25,7 @@ def check(ctx, case):
 	thr_s, ds_s = T.scale_all(thr, [float(x) for x in dists])
 	ftok = T.forest_token(parent, thr_s, report)
 	sc = db = None
-	if case.get('via') == 'db':
+	if case.get('via') in ('db', 'query'):
 		# persisted objects: a scratch database built with the repo's models, loaded through ReferenceDatabase
 		import dbutil
 		from gambit.kmers import KmerSpec
@@ -39,6 +39,23 @@ def check(ctx, case):
 		assert [g.key for g in genomes] == [f'g{i}' for i in range(len(gtax))]
 		byname = {t.name: t for t in db.genomeset.taxa}
 		taxa = [byname[f'T{i}'] for i in range(len(parent))]
+		if case.get('via') == 'query':
+			# the whole pipeline: gambit.query.query() on a real signature; the distance row is the real one (reference i = {i}),
+			# and other query() calls (strict, by keyword or by a parameter object; another report_closest) were made before it
+			from gambit import metric
+			from gambit.query import query, QueryParams
+			qsig = np.array(case['qsig'], dtype=db.signatures.dtype)
+			dists = np.array([metric.jaccarddist(qsig, np.array([i], dtype=qsig.dtype)) for i in range(len(gtax))], dtype=np.float32)
+			thr_s, ds_s = T.scale_all(thr, [float(x) for x in dists])
+			ftok = T.forest_token(parent, thr_s, report)
+			for prior in case.get('prior', []):
+				if prior == 'strict-kwargs':
+					query(db, [qsig], classify_strict=True)
+				elif prior == 'strict-params':
+					query(db, [qsig], QueryParams(classify_strict=True, report_closest=1))
+				elif prior == 'closest-kwargs':
+					query(db, [qsig], report_closest=1, chunksize=1)
+			case['_item'] = query(db, [qsig] * case.get('nq', 1)).items[-1]
 	else:
 		taxa = T.build_taxa(parent, thr, report)
 		genomes = T.build_genomes(taxa, gtax)
@@ -75,7 +92,10 @@ def _check_with(ctx, case, taxa, genomes, tix, gix, ti, dists, ftok, gtax, ds_s,
 	from gambit.db import reportable_taxon
 	lines, pf = [], []
 	try:
-		if db is not None:
+		if case.get('_item') is not None:
+			item = case.pop('_item')
+			res, rep = item.classifier_result, item.report_taxon
+		elif db is not None:
 			item = get_result_item(db, QueryParams(), dists, QueryInput('q'))
 			res, rep = item.classifier_result, item.report_taxon
 		elif case.get('via') == 'classify':
@@ -155,3 +175,8 @@ def run(ctx):
 		gtax = [rng.randrange(n) for _ in range(ng)]
 		dists = [float(x) for x in T.rand_dists(rng, ng, tie_heavy=rng.random() < 0.7)]
 		sub({'parent': parent, 'thr': thr, 'report': report, 'gtax': gtax, 'dists': dists, 'via': rng.choice(['item', 'classify'])}, 'random')
+		if j % 12 == 0:
+			qsig = sorted(set(rng.sample(range(ng), rng.randint(1, ng))) | set(rng.sample(range(100, 110), rng.choice([0, 0, 1, 3]))))
+			thr_q = [None if rng.random() < 0.2 else rng.choice([0.5, 0.75, 1.0, 0.7, 0.9, 0.0]) for _ in range(n)]
+			sub({'parent': parent, 'thr': thr_q, 'report': report, 'gtax': gtax, 'dists': [0.0] * ng, 'via': 'query', 'qsig': qsig, 'nq': rng.choice([1, 2]),
+			     'prior': [rng.choice(['strict-kwargs', 'strict-params', 'closest-kwargs']) for _ in range(rng.choice([0, 1, 2]))]}, 'through-query')
